@@ -20,6 +20,7 @@ var cfgs = map[string]Cfg{
 	"mk":      {Null: true, Marker: "plain"},
 	"mktag":   {Null: true, Marker: "tagged"},
 	"mkboth":  {Null: true, Marker: "both", ProtoTime: true},
+	"rf":      {Null: true, Marker: "rf"}, // a codec registered for the struct type RefNode under the tag rf (used from inside RefNode itself)
 	"mkkind":  {Null: true, Marker: "kind"}, // the marker codec registered for the basic type int32: named int32 types without a registration fall back to it
 	"bq":      {Null: true, BQ: true},
 	"pkg":     {Null: false}, // the package-level functions (plenc.Marshal / plenc.Unmarshal)
